@@ -353,7 +353,7 @@ class Check:
         want += list(targets or [])
         with open(lock, 'w') as lf:
             fcntl.flock(lf, fcntl.LOCK_EX)
-            self._forbidden_grep()
+            self._forbidden_grep(want)
             write_coqproject()
             vos = [w[:-2] + '.vo' for w in want]
             r = subprocess.run(['timeout', '2400', 'make', '-j16', *vos], cwd=COQ, capture_output=True, text=True)
@@ -362,9 +362,12 @@ class Check:
                 return False
         return True
 
-    def _forbidden_grep(self):
+    def _forbidden_grep(self, want=()):
+        """No declared axioms / admitted proofs / disabled checks in anything this property rests on
+        (bin/setup greps the whole development)."""
         bad = []
-        for p in list(COQ.rglob('*.v')):
+        files = list((COQ / 'lib').glob('*.v')) + [COQ / w for w in want] + list((COQ / 'link').glob(f'{self.pid}_*.v'))
+        for p in files:
             txt = re.sub(r'\(\*.*?\*\)', '', p.read_text(), flags=re.S)
             for m in FORBIDDEN.finditer(txt):
                 bad.append(f'{p.relative_to(VERIF)}: {m.group(0)}')
